@@ -316,8 +316,20 @@ def check_payload_untouched(chk, cfg, m, fn):
            ("" if not bad else ": %s at %s" % (bad[0].kind, bad[0].inst.loc)), fn.loc, fn.name)
 
 
+def check_macro_arguments(chk, cfg):
+    from . import macrohyg
+    B = macrohyg.W_BASE
+
+    def want(a):
+        bl, ml = (64 if a[0] else 32), (8 if a[1] else 4)
+        return {"basep": B + 8, "msg_len": ml, "queue_len": bl // ml, "num_free": bl // ml, "sendp": 0, "full_flags": 0, "receivep": 0}
+    macrohyg.check(chk, "G1.macro-arguments", "MESSAGEQ_VAR_INIT", "librfn/messageq.h", "messageq_t",
+                   "MESSAGEQ_VAR_INIT(W + 2, a0 ? 64 : 32, a1 ? 8 : 4)", 2, want, cfg)
+
+
 def run_config(chk, cfg):
     check_g1(chk, cfg)
+    check_macro_arguments(chk, cfg)
     mods = build.load_units(build.library_units(), cfg)
     for m in mods:
         chk.note_unit(m)
